@@ -14,6 +14,7 @@ BUILTIN_VARIANTS = {
     "Result": {"Ok": 0, "Err": 1}, "Option": {"None": 0, "Some": 1},
     "ControlFlow": {"Continue": 0, "Break": 1}, "Poll": {"Ready": 0, "Pending": 1},
     "Ordering": {"Less": -1, "Equal": 0, "Greater": 1}, "Cow": {"Borrowed": 0, "Owned": 1},
+    "Sign": {"Positive": 0, "Negative": 1},
 }
 
 
@@ -148,6 +149,7 @@ class Executor:
         self.encoded = set()
         self.uninterpreted = set()
         self.solver_checks = 0
+        self.cur_frame = None
 
     # ---------------------------------------------------------------- utilities
     def feasible(self, path, extra=None):
@@ -420,8 +422,26 @@ class Executor:
         m = re.match(r'^"(.*)"$', t)
         if m:
             return VOpaque(z3.Int("str:" + m.group(1)), "&str")
+        m = re.match(r"^.*::(\w+)::promoted\[(\d+)\]$", t)
+        if m and getattr(self, "cur_frame", None) is not None:
+            pf = self.funcs.get(self.cur_frame["func"].name + f"::promoted[{m.group(2)}]")
+            if pf is not None:
+                return self.eval_promoted(path, pf)
         # unit-like enum variants / consts / fn items: opaque but stable
         return VUnknown("const:" + t, ty)
+
+    def eval_promoted(self, path, pf):
+        """promoted constants are straight-line bodies: run bb0 in a frame of their own"""
+        fid = "P:" + pf.name[-40:]
+        frame = {"id": fid, "fn": "promoted", "func": pf, "bb": "bb0", "locals": pf.locals, "ret_to": None}
+        saved = self.cur_frame
+        stmts, term, _ = pf.blocks["bb0"]
+        for s_ in stmts:
+            self.stmt(path, frame, s_)
+        self.cur_frame = saved
+        if term != "return":
+            raise Stop("promoted body is not straight-line: " + pf.name)
+        return copy.deepcopy(path.objs.get((fid, "_0")))
 
     def operand(self, path, frame, text, ty=None):
         t = text.strip()
@@ -578,8 +598,9 @@ class Executor:
                 path.notes.append(f"imprecise variant index for {dty}::{variant}")
             a.discr = z3.BitVecVal(idx, 64)
         if named is not None:
-            for k, v in named:
-                a.fields[(variant, k)] = self.operand(path, frame, v)
+            # named fields are printed in declaration order; projections use the positional index
+            for i, (k, v) in enumerate(named):
+                a.fields[(variant, str(i))] = self.operand(path, frame, v)
         else:
             for i, it in enumerate(args):
                 a.fields[(variant, str(i))] = self.operand(path, frame, it)
@@ -643,9 +664,25 @@ class Executor:
         c = strip_generics(callee)
         if c in self.funcs:
             return self.funcs[c]
+        m = re.match(r"^<(.+) as (.+)>::(\w+)$", callee)
+        if m:
+            # trait-qualified call: unique impl method of that name whose self type matches
+            ty = strip_generics(m.group(1)).replace("&", "").replace("mut ", "").strip().split("::")[-1]
+            meth = m.group(3)
+            cands = []
+            for n, f in self.funcs.items():
+                if not n.endswith("::" + meth) or "<impl at " not in n:
+                    continue
+                a0 = strip_generics(f.args[0][1]).replace("&", "").replace("mut ", "").strip().split("::")[-1] if f.args else ""
+                rt = strip_generics(f.ret or "").split("::")[-1]
+                if a0 == ty or (rt == ty and a0 != ty and not any(ty == strip_generics(t).replace("&", "").replace("mut ", "").strip().split("::")[-1] for _, t in f.args)):
+                    cands.append(f)
+            self._trait_cands = cands
+            return cands[0] if len(cands) == 1 else None
         segs = c.split("::")
         if len(segs) < 2:
-            return None
+            cands = [f for n, f in self.funcs.items() if (n == c or n.endswith("::" + c)) and "<impl at " not in n and "{closure" not in n]
+            return cands[0] if len(cands) == 1 else None
         meth, tyname = segs[-1], segs[-2]
         mod = "::".join(segs[:-2])
         cands = []
@@ -737,6 +774,7 @@ class Executor:
             self.finish(path, ("limit", f"{func.name} {bb} visited more than {self.max_visits} times"))
             return []
         stmts, term, cleanup = func.blocks[bb]
+        self.cur_frame = frame
         for s in stmts:
             self.stmt(path, frame, s)
         return self.terminator(path, frame, term)
